@@ -116,6 +116,7 @@ theorem grace_bound_witness : (kill ⟨200000, true, true, true, true, true⟩ .
 /-! ### Non-vacuity -/
 example : kill pGood .netrpc .exitsFast true true true = ⟨true, false, true, true, true, 2000⟩ := by decide
 example : kill pGood .grpc .frozen false true true = ⟨true, true, true, true, false, 4000⟩ := by decide
-example : kill pGood .netrpc .frozen false true true = ⟨true, true, true, true, false, 40000⟩ := by decide
+-- frozen net/rpc plugin: the dead-peer detection ends the pending Quit with EOF (a "successful" close), then the grace period, then the force kill
+example : kill pGood .netrpc .frozen false true true = ⟨true, true, true, true, false, 42000⟩ := by decide
 
 end GoPlugin.Props.C04
